@@ -859,6 +859,11 @@ func (p *Parser) parseType() (ast.Type, bool, error) {
 // parseSingleType parses a single type (without union handling) with optional type parameter context
 // This is used within union type parsing to avoid nested unions
 func (p *Parser) parseSingleType(typeParamNames []string) (ast.Type, error) {
+	p.depth++
+	if p.depth > maxParseDepth {
+		return nil, fmt.Errorf("maximum nesting depth exceeded (%d levels)", maxParseDepth)
+	}
+	defer func() { p.depth-- }()
 	var baseType ast.Type
 
 	// Check for function type: (T) -> U or (int, string) -> bool
@@ -975,6 +980,11 @@ func (p *Parser) parseSingleType(typeParamNames []string) (ast.Type, error) {
 // parseTypeWithContext parses a type annotation with optional type parameter context
 // The typeParamNames parameter contains names of type parameters in scope (for generic definitions)
 func (p *Parser) parseTypeWithContext(typeParamNames []string) (ast.Type, bool, error) {
+	p.depth++
+	if p.depth > maxParseDepth {
+		return nil, false, fmt.Errorf("maximum nesting depth exceeded (%d levels)", maxParseDepth)
+	}
+	defer func() { p.depth-- }()
 	var baseType ast.Type
 	required := false
 
@@ -1946,6 +1956,11 @@ func (p *Parser) parseRateLimit() (*ast.RateLimit, error) {
 
 // parseStatement parses a statement
 func (p *Parser) parseStatement() (ast.Statement, error) {
+	p.depth++
+	if p.depth > maxParseDepth {
+		return nil, fmt.Errorf("maximum nesting depth exceeded (%d levels)", maxParseDepth)
+	}
+	defer func() { p.depth-- }()
 	switch p.current().Type {
 	case QUESTION:
 		// ? validate_fn(args)                 -- validation assertion
@@ -2805,7 +2820,11 @@ func (p *Parser) parseUnary() (ast.Expr, error) {
 	// Check for unary NOT operator
 	if p.check(BANG) {
 		tok := p.current()
-		p.advance()                  // consume !
+		p.advance() // consume !
+		if err := p.enterNested(); err != nil {
+			return nil, err
+		}
+		defer p.leaveNested()
 		right, err := p.parseUnary() // recursively parse for chained unary ops
 		if err != nil {
 			return nil, err
@@ -2823,6 +2842,10 @@ func (p *Parser) parseUnary() (ast.Expr, error) {
 		// Only treat as unary minus if it's at the start of an expression
 		// or after an operator (not after an identifier or literal)
 		p.advance() // consume -
+		if err := p.enterNested(); err != nil {
+			return nil, err
+		}
+		defer p.leaveNested()
 		right, err := p.parseUnary()
 		if err != nil {
 			return nil, err
@@ -2836,6 +2859,19 @@ func (p *Parser) parseUnary() (ast.Expr, error) {
 
 	return p.parsePrimary()
 }
+
+// enterNested counts one level of recursive descent against maxParseDepth;
+// every enterNested is paired with a leaveNested.
+func (p *Parser) enterNested() error {
+	p.depth++
+	if p.depth > maxParseDepth {
+		p.depth--
+		return fmt.Errorf("maximum nesting depth exceeded (%d levels)", maxParseDepth)
+	}
+	return nil
+}
+
+func (p *Parser) leaveNested() { p.depth-- }
 
 // parsePrimary parses a primary expression
 func (p *Parser) parsePrimary() (ast.Expr, error) {
@@ -5083,6 +5119,11 @@ func (p *Parser) parseMatchExpr() (ast.Expr, error) {
 
 // parsePattern parses a pattern for match expressions
 func (p *Parser) parsePattern() (ast.Pattern, error) {
+	p.depth++
+	if p.depth > maxParseDepth {
+		return nil, fmt.Errorf("maximum nesting depth exceeded (%d levels)", maxParseDepth)
+	}
+	defer func() { p.depth-- }()
 	switch p.current().Type {
 	case INTEGER:
 		// Literal integer pattern
